@@ -80,7 +80,10 @@ type World struct {
 	LCfg    *config.Config
 	Backend *Backend
 	Panics  []string
-	mu      sync.Mutex
+	// NoRecover: serve IMAP connections exactly as cmd/server does (`go srv.HandleConnection(conn)`), without the harness-side
+	// recover, so that a panic that escapes the connection root ends the process (C12 runs this in a child process)
+	NoRecover bool
+	mu        sync.Mutex
 }
 
 // New creates a world in dir (the process must already have chdir'ed into a private work dir: the IMAP
@@ -126,17 +129,21 @@ func (w *World) IMAP(tls bool) *Client {
 	if tls {
 		sc = tlsPipe{a}
 	}
-	go func() {
-		defer func() {
-			if r := recover(); r != nil {
-				w.mu.Lock()
-				w.Panics = append(w.Panics, fmt.Sprint(r))
-				w.mu.Unlock()
-				a.Close()
-			}
+	if w.NoRecover {
+		go w.Srv.HandleConnection(sc)
+	} else {
+		go func() {
+			defer func() {
+				if r := recover(); r != nil {
+					w.mu.Lock()
+					w.Panics = append(w.Panics, fmt.Sprint(r))
+					w.mu.Unlock()
+					a.Close()
+				}
+			}()
+			w.Srv.HandleConnection(sc)
 		}()
-		w.Srv.HandleConnection(sc)
-	}()
+	}
 	cl := &Client{C: b, R: bufio.NewReaderSize(b, 1<<16), W: w, Wait: 5 * time.Second}
 	cl.C.SetReadDeadline(time.Now().Add(cl.Wait))
 	cl.R.ReadString('\n') // greeting
